@@ -133,6 +133,8 @@ def gen_cases(kind, n, salt):
                     d["tags"] = [r.choice(docs.WORDS) for _ in range(r.randint(0, 3))]
                 return d
             a = [rec() for _ in range(r.randint(1, 4))]
+            if r.random() < 0.3:
+                a.insert(r.randint(0, len(a)), dict(a[0]))        # the same record twice (equal siblings)
             b = [dict(x) for x in a]
             j = r.randrange(len(a))
             old, new = r.choice(renames)
@@ -189,7 +191,7 @@ def gen_cases(kind, n, salt):
                 return x
             b = edit(a)
             cases.append(("json", a, b, r.choice(docs.ALL_OPTS[:3])))
-    elif kind in ("csv", "pyobj", "plist", "loaded"):
+    elif kind in ("csv", "pyobj", "plist", "loaded", "crossplist"):
         for i in range(n):
             cases.append((kind, i, None, r.choice(docs.ALL_OPTS)))
     elif kind == "huge":
@@ -231,6 +233,11 @@ def build_pair(case, salt):
     if kind == "loaded":
         r = rng("loaded", salt, a)
         return docs.random_loaded_pair(r, opts)
+    if kind == "crossplist":
+        # a property list compared with another format: the plist root wrapper is a file-format artefact, so these pairs
+        # only serve the cost views of C03 (the element accounting of C01 / C10 has no place for the wrapper)
+        r = rng("crossplist", salt, a)
+        return docs.random_loaded_pair(r, opts, cross=r.choice(("plist>json", "plist>yaml")))
     if kind == "mixedkeys":
         r = rng("mixedkeys", salt, a)
         da, db = docs.random_mixedkeys_docs(r)
